@@ -23,6 +23,7 @@ func (rr *SIG) Sign(k crypto.Signer, m *Msg) ([]byte, error) {
 
 	rr.Hdr = RR_Header{Name: ".", Rrtype: TypeSIG, Class: ClassANY, Ttl: 0}
 	rr.OrigTtl, rr.TypeCovered, rr.Labels = 0, 0, 0
+	rr.Signature = "" // what is signed is the SIG without a signature, also when rr was used before
 
 	// PackBuffer only packs into buf when it can hold the uncompressed message.
 	buf := make([]byte, msgLenWithCompressionMap(m, nil)+Len(rr))
